@@ -11,6 +11,7 @@ partial def parseE (j : Json) : Option EPat := do
   match tag with
   | "lit" => some (.lit (← asNat a[1]!))
   | "any" => some .any
+  | "miss" => some (.lit 1000000)       -- a node pattern with a field the target does not have: never matches
   | "cap" => some (.cap (← asNat a[1]!) (← parseE a[2]!))
   | "ref" => some (.ref (← asNat a[1]!))
   | "and2" => some (.and2 (if isNull a[1]! then none else asNat a[1]!) (← parseE a[2]!)
